@@ -40,6 +40,10 @@ Proof.
   intros uA A uB B dA dB f g H1 H2 H3 H4 H5 H6 H7 H8 H9 H10. unfold accepted.
   destruct (signature_conflict_rejected2 uA A uB B dA dB f g H1 H2 H3 H4 H5 H6 H7 H8 H9 H10) as (es & ->). reflexivity.
 Qed.
+(* ... and only then: a declaration is never in conflict with itself (argument names distinct, as GraphQL requires), so
+   the identical copies of a shared type that the property allows still merge *)
+Theorem a_field_agrees_with_itself : forall f, NoDup (map a_name (f_args f)) -> same_sig f f = true.
+Proof. exact same_sig_refl. Qed.
 Example signature_conflict_example :
   accepted [("A", vx "q1"); ("B", [mkDef KObject "Query" "" [] [mkField "q2" [] "V"] [] []; mkDef KObject "V" "" [] [mkField "x" [] "String"] [] []])] = false.
 Proof. vm_compute. reflexivity. Qed.
@@ -105,6 +109,7 @@ Proof. eexists. split; [vm_compute; reflexivity|]. now left. Qed.
 
 Print Assumptions C05_order_refuted.
 Print Assumptions shared_field_with_another_signature_is_rejected.
+Print Assumptions a_field_agrees_with_itself.
 Print Assumptions conflict_is_rejected.
 Print Assumptions different_kinds_conflict.
 Print Assumptions union_members_conflict.
